@@ -106,9 +106,26 @@ def isCall1 : Term → Bool
   | .app "call" (.cons _ .nil) => true
   | _ => false
 
-/-- the control constructs as goals: `call(G)`, `(C -> T ; E)`, `(C -> T)`, `once(G)`, `\\+ G` -/
+/-- the control constructs of stage 3 as goals: `call(G)`, `(C -> T ; E)`, `(C -> T)`, `once(G)`, `\\+ G` -/
+def ctlGoal1 : Term → Bool
+  | .app "call" (.cons _ .nil) => true
+  | .app "once" (.cons _ .nil) => true
+  | .app "\\+" (.cons _ .nil) => true
+  | .app ";" (.cons (.app "->" (.cons _ (.cons _ .nil))) (.cons _ .nil)) => true
+  | .app "->" (.cons _ (.cons _ .nil)) => true
+  | _ => false
+
+/-- `call(G, A1, …, Ak)`, 1 ≤ k ≤ 7: call/2 … call/8 (the Go engine defines call/1 … call/8; for more
+    arguments the VM MODEL and the reference disagree, see `VmRefinesSldCtlFullStatement`) -/
+def callNGoal : Term → Bool
+  | .app "call" (.cons _ (.cons _ es)) => decide (es.length ≤ 6)
+  | _ => false
+
+/-- the control constructs as goals (the largest fragment): those of stage 3 (`ctlGoal1`) and
+    call/N, 2 ≤ N ≤ 8 (`callNGoal`) -/
 def ctlGoal : Term → Bool
   | .app "call" (.cons _ .nil) => true
+  | .app "call" (.cons _ (.cons _ es)) => decide (es.length ≤ 6)
   | .app "once" (.cons _ .nil) => true
   | .app "\\+" (.cons _ .nil) => true
   | .app ";" (.cons (.app "->" (.cons _ (.cons _ .nil))) (.cons _ .nil)) => true
@@ -169,13 +186,74 @@ structure CutFrag (prog : List Term) (query : Term) : Prop where
 theorem goalS_false (t : Term) : goalS false t = cutGoal t := by simp [goalS, stepGoal, cutGoal]
 theorem bodyS_false (b : Term) : bodyS false b = bodyOK b := by
   simp only [bodyS, bodyOK]; congr 1; funext t; exact goalS_false t
-/-- **the fragment (stage 3)**: stage 2 + the control constructs `ctlGoal` as goals of clause bodies,
+
+/-! ### fragments by a predicate `P` on the control goals
+
+  The proofs work with `FragS true` (all control goals proved so far, `ctlGoal`); the named fragments
+  of the stages are the instances `FragG P` for the control goals `P` of the stage. -/
+
+def goalG (P : Term → Bool) (t : Term) : Bool := t == .atom "!" || (hornGoal t || P t)
+def bodyG (P : Term → Bool) (b : Term) : Bool := (SLD.conjuncts b).all (goalG P)
+def dbodyG (P : Term → Bool) (b : Term) : Bool := (SLD.disjuncts b).all (bodyG P)
+def clauseG (P : Term → Bool) (c : Term) : Bool :=
+  wfT c && hornHead (SLD.headBody c).1 && dbodyG P (SLD.headBody c).2
+
+structure FragG (P : Term → Bool) (prog : List Term) (query : Term) : Prop where
+  clauses : ∀ c ∈ prog, clauseG P c = true
+  goal : dbodyG P query = true
+  wf : wfT query = true
+  nonvar : ∀ v, query ≠ .var v
+  small : SLD.maxVar query + 10 ≤ 1000000
+
+/-- **the fragment (stage 3)**: stage 2 + the control constructs `ctlGoal1` as goals of clause bodies,
     of the query and of the goals that are called: `call/1` (also as a variable in goal position),
     if-then-else, if-then, `once/1`, `\\+`/1; + disjunction at the top level of clause bodies, of the
-    query and of called goals (`dbodyS`).  Decidable. -/
-abbrev CtlFrag (prog : List Term) (query : Term) : Prop := FragS true prog query
+    query and of called goals (`dbodyG`).  Decidable. -/
+abbrev CtlFrag (prog : List Term) (query : Term) : Prop := FragG ctlGoal1 prog query
 /-- (the name under which stage 3a was delivered) -/
-abbrev CallFrag (prog : List Term) (query : Term) : Prop := FragS true prog query
+abbrev CallFrag (prog : List Term) (query : Term) : Prop := FragG ctlGoal1 prog query
+/-- **the fragment (stage 4a)**: stage 3 + `call/N`, 2 ≤ N ≤ 8, as a goal of clause bodies, of the
+    query and of called goals. -/
+abbrev CallNFrag (prog : List Term) (query : Term) : Prop :=
+  FragG (fun t => ctlGoal1 t || callNGoal t) prog query
+
+theorem ctlGoal1_sub {t : Term} (h : ctlGoal1 t = true) : ctlGoal t = true := by
+  unfold ctlGoal1 at h
+  split at h
+  · rfl
+  · rfl
+  · rfl
+  · rfl
+  · simp [ctlGoal]
+  · cases h
+
+theorem callNGoal_sub {t : Term} (h : callNGoal t = true) : ctlGoal t = true := by
+  unfold callNGoal at h
+  split at h
+  · simpa [ctlGoal] using h
+  · cases h
+
+theorem FragG.toS {P : Term → Bool} {prog : List Term} {query : Term} (hP : ∀ t, P t = true → ctlGoal t = true)
+    (h : FragG P prog query) : FragS true prog query := by
+  have hg : ∀ t, goalG P t = true → goalS true t = true := by
+    intro t ht
+    simp only [goalG, goalS, stepGoal, Bool.or_eq_true, Bool.true_and] at ht ⊢
+    rcases ht with ht | ht | ht
+    · exact Or.inl ht
+    · exact Or.inr (Or.inl ht)
+    · exact Or.inr (Or.inr (hP t ht))
+  have hb : ∀ b, bodyG P b = true → bodyS true b = true := by
+    intro b hb
+    simp only [bodyG, bodyS, List.all_eq_true] at hb ⊢
+    exact fun t ht => hg t (hb t ht)
+  have hd : ∀ b, dbodyG P b = true → dbodyS true b = true := by
+    intro b hb'
+    simp only [dbodyG, dbodyS, List.all_eq_true] at hb' ⊢
+    exact fun t ht => hb t (hb' t ht)
+  refine ⟨fun c hc => ?_, hd _ h.goal, h.wf, h.nonvar, h.small⟩
+  have := h.clauses c hc
+  simp only [clauseG, clauseS, Bool.and_eq_true] at this ⊢
+  exact ⟨this.1, hd _ this.2⟩
 
 theorem goalS_mono {t : Term} (h : goalS false t = true) (s : Bool) : goalS s t = true := by
   simp only [goalS, stepGoal, Bool.or_eq_true, Bool.and_eq_true, Bool.false_and, Bool.false_eq_true,
@@ -391,11 +469,13 @@ inductive Ctl (g : Term) : Prop
   | ifthen (c t : Term) : g = .app "->" (.cons c (.cons t .nil)) → Ctl g
   | once (x : Term) : g = .app "once" (.cons x .nil) → Ctl g
   | neg (x : Term) : g = .app "\\+" (.cons x .nil) → Ctl g
+  | callN (x e : Term) (es : Args) : g = .app "call" (.cons x (.cons e es)) → es.length ≤ 6 → Ctl g
 
 theorem ctlGoal_shape {g : Term} (h : ctlGoal g = true) : Ctl g := by
   unfold ctlGoal at h
   split at h
   · exact .call _ rfl
+  · exact .callN _ _ _ rfl (by simpa using h)
   · exact .once _ rfl
   · exact .neg _ rfl
   · exact .ite _ _ _ rfl
@@ -409,6 +489,7 @@ theorem ctlGoal_app {g : Term} (h : ctlGoal g = true) : ∃ f a as, g = .app f (
   | ifthen c t hx => exact ⟨_, _, _, hx⟩
   | once x hx => exact ⟨_, _, _, hx⟩
   | neg x hx => exact ⟨_, _, _, hx⟩
+  | callN x e es hx _ => exact ⟨_, _, _, hx⟩
 
 /-- a `stepGoal`: a Horn goal or (with control constructs) a control construct -/
 theorem stepGoal_cases {s : Bool} {g : Term} (h : stepGoal s g = true) :
@@ -450,6 +531,7 @@ theorem disjuncts_horn (b : Term) {fl : Bool} (h : bodyS fl b = true) : SLD.disj
       | ifthen c t hx' => simp at hx'
       | once x' hx' => simp at hx'
       | neg x' hx' => simp at hx'
+      | callN x' e' es' hx' _ => simp at hx'
   · rfl
 
 
@@ -520,6 +602,7 @@ theorem altBodies_toRep {s : Bool} (b : Term) (h : bodyS s b = true) : altBodies
                   | ifthen c t hx' => simp at hx'
                   | once x' hx' => simp at hx'
                   | neg x' hx' => simp at hx'
+                  | callN x' e' es' hx' _ => simp at hx'
               obtain ⟨c, t, rfl⟩ := hx
               simp only [toReps, RepList.cons.injEq] at hargs
               obtain ⟨ha, hb, _⟩ := hargs
